@@ -541,6 +541,16 @@ func c10fullRun(a []string) string {
 		}
 		i := i
 		go func() {
+			// the protocol is under way once the process has subscribed to its own message type: is the lock held then?
+			if waitUntil(120*time.Second, func() bool { return len(nd.ledger.inner.GetSubscribers(sid, c10msgType(kind))) > 0 }) {
+				cnt.mu.Lock()
+				if cnt.runProbe == "" {
+					cnt.runProbe = itoa(cnt.held)
+				}
+				cnt.mu.Unlock()
+			}
+		}()
+		go func() {
 			resultChn := make(chan interface{}, 4)
 			err := nd.coord.Execute(ctx, []tss.TssProcess{proc}, resultChn)
 			r := "ok"
